@@ -1197,15 +1197,34 @@ def transform(fn, proceed, to_instrument=True, set_conformer=True):
 
     fname = fn.__name__
     save = glb.get(fname, None)
-    exec(new_fn, glb, glb)
 
     try:
         from codefind import code_registry
+    except ImportError:  # pragma: no cover
+        code_registry = None
 
+    current = {}
+    if code_registry is not None:
+        # Functions defined inside fn may be probed right now, in which case
+        # the registry maps their path to their instrumented code. Remember
+        # these mappings: the exec and the assimilate below reset them.
+        def _nested(code):
+            yield code
+            for ct in code.co_consts:
+                if isinstance(ct, types.CodeType):
+                    yield from _nested(ct)
+
+        for code in _nested(fn.__code__):
+            for path in code_registry.backcodes.get(code, ()):
+                if path in code_registry.currcodes:
+                    current[path] = code_registry.currcodes[path]
+
+    exec(new_fn, glb, glb)
+
+    if code_registry is not None:
         co = fn.__code__
         code_registry.assimilate(co, (co.co_filename,))
-    except ImportError:  # pragma: no cover
-        pass
+        code_registry.currcodes.update(current)
 
     # Get the new function (populated with exec)
     if "#WRAP" in glb:
